@@ -390,3 +390,104 @@ opt-level = 2
         df = default_features
     )
 }
+
+// ------------------------------------------------------------------------------------------
+// C20: a crate that only has to compile, with no dependency named `syn`
+
+pub fn cargo_toml_c20(name: &str) -> String {
+    format!(
+        r#"[package]
+name = "{name}"
+version = "0.0.0"
+edition = "2021"
+
+[workspace]
+
+[dependencies]
+darling = {{ path = "/repo" }}
+# deliberately NOT named `syn`: emitted code must reach syn through darling's re-exports
+syn_v2 = {{ package = "syn", version = "2.0.15", features = ["full", "extra-traits"] }}
+vmodel = {{ path = "/verif/harness/vmodel" }}
+"#,
+        name = name
+    )
+}
+
+/// Generic receivers and other declarations that only matter to the compiler (hand-written templates,
+/// instantiated with hostile names).
+pub fn c20_extras(first_id: usize, names: &[&str]) -> Vec<(usize, String)> {
+    let mut out = vec![];
+    let mut id = first_id;
+    // names that are magic fields of some element-level trait are not ordinary field names there
+    let pool: Vec<&str> = names
+        .iter()
+        .cloned()
+        .filter(|x| !["ident", "attrs", "vis", "ty", "data", "generics", "bounds", "default", "discriminant", "fields"].contains(x))
+        .collect();
+    let n = |k: usize| pool[k % pool.len()];
+    let traits = ["FromMeta", "FromDeriveInput", "FromField", "FromVariant", "FromTypeParam", "FromAttributes"];
+    for (k, tr) in traits.iter().enumerate() {
+        let attrs = if *tr == "FromMeta" { "" } else { "#[darling(attributes(ata))]\n" };
+        // type parameter used by parsed fields, a skipped field of another parameter, lifetime and const params
+        out.push((id, format!(
+            "#[derive(::darling::{tr})]\n{attrs}pub struct G{id}<'a, T, U: ::core::default::Default, const N: usize> where T: ::core::clone::Clone {{\n    pub {a}: T,\n    #[darling(default)] pub {b}: ::core::option::Option<T>,\n    #[darling(multiple)] pub {c}: ::std::vec::Vec<T>,\n    #[darling(skip)] pub {d}: U,\n    #[darling(skip)] pub ph: ::core::marker::PhantomData<&'a [u8; N]>,\n}}\n",
+            tr = tr, attrs = attrs, id = id, a = n(k), b = n(k + 1), c = n(k + 2), d = n(k + 3)
+        )));
+        id += 1;
+        // closures for with / map on a generic-free receiver with hostile names; defaults through generic paths
+        out.push((id, format!(
+            "#[derive(::darling::{tr})]\n{attrs}pub struct H{id} {{\n    #[darling(with = |m| <u8 as ::darling::FromMeta>::from_meta(m), map = \"::core::convert::identity\")] pub {a}: u8,\n    #[darling(default = \"::std::vec::Vec::<u8>::new\", multiple)] pub {b}: ::std::vec::Vec<u8>,\n    #[darling(default = \"::core::default::Default::default\")] pub {c}: ::std::string::String,\n    #[darling(and_then = \"::darling::export::Ok\")] pub {d}: bool,\n}}\n",
+            tr = tr, attrs = attrs, id = id, a = n(k + 4), b = n(k + 5), c = n(k + 6), d = n(k + 7)
+        )));
+        id += 1;
+    }
+    // enums: hostile variant names, generic enum, container-level options on enums
+    out.push((id, format!("#[derive(::darling::FromMeta)]\npub enum E{id} {{ Ok, Err(u8), Some {{ {a}: u8, {b}: ::core::option::Option<bool> }}, None, Self_, Result(::std::string::String) }}\n", id = id, a = n(0), b = n(1))));
+    id += 1;
+    out.push((id, format!("#[derive(::darling::FromMeta)]\npub enum E{id}<T> {{ Unit, New(T), St {{ {a}: T, #[darling(skip)] {b}: ::core::option::Option<T> }} }}\n", id = id, a = n(2), b = n(3))));
+    id += 1;
+    out.push((id, format!("#[derive(::darling::FromMeta)]\n#[darling(rename_all = \"kebab-case\", allow_unknown_fields)]\npub enum E{id} {{ #[darling(word)] UnitOne, #[darling(rename = \"x\")] New(u8), #[darling(skip)] Skipped(::std::fs::File), St {{ #[darling(default)] {a}: u8, #[darling(multiple, rename = \"m\")] {b}: ::std::vec::Vec<u8> }} }}\n", id = id, a = n(4), b = n(5))));
+    id += 1;
+    // newtype and unit receivers
+    // (newtype delegation exists for FromMeta, FromDeriveInput and FromAttributes only)
+    for tr in ["FromMeta", "FromDeriveInput"] {
+        out.push((id, format!("#[derive(::darling::{tr})]\npub struct N{id}(pub W{id});\n#[derive(::darling::{tr})]\npub struct W{id} {{ #[darling(default)] pub {a}: u8 }}\n", tr = tr, id = id, a = n(id))));
+        id += 1;
+    }
+    out.push((id, format!("#[derive(::darling::FromMeta)]\npub struct U{id};\n#[derive(::darling::FromMeta)]\npub struct D{id} {{ pub default: u8, #[darling(default)] pub ident: ::core::option::Option<u8>, pub attrs: bool, #[darling(skip)] pub data: u8 }}\n", id = id)));
+    id += 1;
+    // known finding: a container-level `default` on an enum with a struct variant
+    out.push((id, format!("#[derive(::darling::FromMeta)]\n#[darling(default)]\npub enum KD{id} {{ A, B {{ {a}: u8 }} }}\nimpl ::core::default::Default for KD{id} {{ fn default() -> Self {{ KD{id}::A }} }}\n", id = id, a = n(6))));
+    id += 1;
+    // the same on an enum without struct variants is harmless
+    out.push((id, format!("#[derive(::darling::FromMeta)]\n#[darling(default, map = \"::core::convert::identity\")]\npub enum KE{id} {{ A, B(u8) }}\nimpl ::core::default::Default for KE{id} {{ fn default() -> Self {{ KE{id}::A }} }}\n", id = id)));
+    id += 1;
+    // a receiver inside a module without any imports, nested in a function-like scope
+    out.push((id, format!(
+        "pub mod m{id} {{\n    pub mod inner {{\n        #[derive(::darling::FromDeriveInput)]\n        #[darling(attributes(ata), forward_attrs(doc), supports(struct_named, enum_any))]\n        pub struct M{id} {{ pub ident: ::darling::export::syn::Ident, pub attrs: ::std::vec::Vec<::darling::export::syn::Attribute>, pub data: ::darling::ast::Data<(), ()>, #[darling(default)] pub {a}: ::core::option::Option<::std::string::String> }}\n    }}\n}}\n",
+        id = id, a = n(id)
+    )));
+    out
+}
+
+/// The C20 crate: every receiver preceded by a marker line so that rustc diagnostics can be
+/// attributed. Returns (source, [(receiver key, first line, last line)]).
+pub fn emit_c20_source(specs: &[Spec], extras: &[(usize, String)]) -> (String, Vec<(String, usize, usize)>) {
+    let mut s = String::from("// @generated by vgen (C20)\n#![allow(dead_code, unused_variables, non_camel_case_types, non_snake_case, clippy::all)]\n\n");
+    let mut ranges = vec![];
+    let line_of = |s: &str| s.matches('\n').count() + 1;
+    for sp in specs {
+        let start = line_of(&s);
+        s.push_str(&emit_spec(sp, "", "", ""));
+        s.push('\n');
+        ranges.push((format!("R{}", sp.id), start, line_of(&s) - 1));
+    }
+    for (id, src) in extras {
+        let start = line_of(&s);
+        s.push_str(src);
+        s.push('\n');
+        ranges.push((format!("X{}", id), start, line_of(&s) - 1));
+    }
+    s.push_str("fn main() {}\n");
+    (s, ranges)
+}
